@@ -112,6 +112,19 @@ fn cells(tier: &str) -> Vec<Value> {
             id += 1;
         }
     }
+    // a handle that has already been used is cloned; original and clone then have requests in
+    // flight together (whatever a handle carries besides the shared stream is copied by clone())
+    for prior in [1usize, 2, 15, 16, 17] {
+        for order in ["original-first", "clone-first"] {
+            for clones in [1usize, 2] {
+                v.push(json!({"cell": id, "family": "used-handle-cloned", "calls": 1 + clones, "prior_requests": prior, "reply_order": order, "clones": clones}));
+                id += 1;
+            }
+        }
+    }
+    // many clones released together from different threads (schedules SAMPLED by repetition)
+    v.push(json!({"cell": id, "family": "clone-stampede", "calls": 8, "rounds": if tier == "thorough" { 400 } else { 60 }}));
+    id += 1;
     // the reply to a timed-out request arrives while the request issued `distance` requests later
     // is in flight (ids that coincide modulo a table size or after truncation)
     let distances: &[u64] = if tier == "thorough" { &[1, 2, 3, 15, 16, 255, 256, 257, 1023, 1024, 1025, 4095, 4096, 65535, 65536] } else { &[2, 255, 256, 1023, 1024, 1025, 4096] };
@@ -378,6 +391,167 @@ async fn cell_inner(addr: SocketAddr, set: Arc<CertSet>, topic: String, c: Value
         tag = if reopen { "late-replies-ignored-after-reopen" } else { "late-replies-ignored" };
     }
     Ok(tag.into())
+}
+
+/// `prior` requests on a fresh handle (answered at once), then the handle is cloned (once or
+/// twice) and the original and its clones each issue one request; the replier collects them all
+/// and answers in the given order. Every call must return its own reply.
+async fn used_clone_cell(addr: SocketAddr, set: Arc<CertSet>, topic: String, c: Value) -> Result<String, Fail> {
+    let prior = c["prior_requests"].as_u64().unwrap() as usize;
+    let order = c["reply_order"].as_str().unwrap().to_string();
+    let clones = c["clones"].as_u64().unwrap() as usize;
+    let class = format!("used-handle-cloned:clones={clones}");
+    let setup = |what: &str, e: String| fail("setup", what, format!("{what}: {e}"));
+    let raw = RawConn::connect(addr, &set.ca, Some(&set.client)).await.map_err(|e| setup("raw connect", e.to_string()))?;
+    let tn = TopicName::try_from(topic.as_str()).map_err(|e| setup("topic", e.to_string()))?;
+    let (mut rs, first) = raw.register(Frame::RegisterReplier(ReplierPayload { topic: tn })).await.map_err(|e| setup("register replier", e.to_string()))?;
+    if first != Some(Frame::Ok) {
+        return Err(setup("register replier", format!("answered {first:?}")));
+    }
+    let expect_concurrent = 1 + clones;
+    let order_r = order.clone();
+    let replier = tokio::spawn(async move {
+        let mut held: Vec<(String, Frame)> = Vec::new();
+        while let Some(Ok(f)) = rs.next().await {
+            if let Frame::Message(p) = f {
+                let body = String::from_utf8_lossy(&p.message).to_string();
+                let reply = Frame::Message(MessagePayload { headers: p.headers, message: Bytes::from(format!("re:{body}").into_bytes()) });
+                if body.starts_with("prior") {
+                    let _ = rs.send(reply).await;
+                } else {
+                    held.push((body, reply));
+                    if held.len() == expect_concurrent {
+                        held.sort_by(|a, b| a.0.cmp(&b.0)); // "call-0-original", "call-1-clone", ...
+                        if order_r == "clone-first" {
+                            held.reverse();
+                        }
+                        for (_, r) in held.drain(..) {
+                            let _ = rs.send(r).await;
+                            tokio::time::sleep(Duration::from_millis(10)).await;
+                        }
+                    }
+                }
+            }
+        }
+    });
+    let client = net::default_client(addr, &set).await.map_err(|e| setup("client connect", e.to_string()))?;
+    let mut req = client
+        .requestor(&topic)
+        .with_request_encoder(StringCodec)
+        .with_reply_decoder(StringCodec)
+        .with_request_timeout(Duration::from_millis(3000))
+        .map_err(|e| setup("timeout config", e.to_string()))?
+        .open()
+        .await
+        .map_err(|e| fail("open-error", &class, format!("requestor open failed: {e}")))?;
+    for i in 0..prior {
+        let mut ok = false;
+        for _ in 0..5 {
+            match req.request(format!("prior{i}")).await {
+                Ok(v) if v == format!("re:prior{i}") => {
+                    ok = true;
+                    break;
+                }
+                Ok(v) => return Err(fail("wrong-reply", &class, format!("prior request {i} returned {v:?}"))),
+                Err(SeliumError::RequestTimeout) => continue,
+                Err(e) => return Err(setup("prior", e.to_string())),
+            }
+        }
+        if !ok {
+            return Err(setup("prior", "timed out 5 times".into()));
+        }
+    }
+    let mut handles = Vec::new();
+    let mut c1 = req.clone();
+    let mut c2 = req.clone();
+    handles.push(tokio::spawn(async move { ("call-0-original".to_string(), req.request("call-0-original".to_string()).await) }));
+    tokio::time::sleep(Duration::from_millis(15)).await;
+    handles.push(tokio::spawn(async move { ("call-1-clone".to_string(), c1.request("call-1-clone".to_string()).await) }));
+    if clones == 2 {
+        tokio::time::sleep(Duration::from_millis(15)).await;
+        handles.push(tokio::spawn(async move { ("call-2-clone".to_string(), c2.request("call-2-clone".to_string()).await) }));
+    }
+    let mut results = Vec::new();
+    for h in handles {
+        results.push(tokio::time::timeout(Duration::from_secs(20), h).await.map_err(|_| fail("hang", &class, "a request neither returned nor timed out within 20 s".into()))?.map_err(|e| setup("task", e.to_string()))?);
+    }
+    replier.abort();
+    for (name, r) in &results {
+        match r {
+            Ok(v) if *v == format!("re:{name}") => {}
+            other => {
+                return Err(fail(
+                    if other.is_ok() { "wrong-reply" } else { "answered-request-failed" },
+                    &class,
+                    format!("a requestor handle was used for {prior} request(s) and then cloned; the original and {clones} clone(s) each had one request in flight, all answered ({order}): {:?}", results.iter().map(|(n, r)| format!("{n} -> {}", match r { Ok(v) => format!("Ok({v:?})"), Err(e) => format!("Err({e})") })).collect::<Vec<_>>()),
+                ))
+            }
+        }
+    }
+    Ok("own-replies".into())
+}
+
+/// Eight clones of one requestor, each driven from a thread of its own, issue one request per
+/// round at the same instant; an echoing replier. Schedules are SAMPLED by repetition (labelled
+/// so in the evidence): this cell can only find, never exclude, an unsynchronised id allocation.
+async fn stampede_cell(addr: SocketAddr, set: Arc<CertSet>, topic: String, c: Value) -> Result<String, Fail> {
+    let rounds = c["rounds"].as_u64().unwrap() as usize;
+    let class = "clone-stampede".to_string();
+    let setup = |what: &str, e: String| fail("setup", what, format!("{what}: {e}"));
+    let raw = RawConn::connect(addr, &set.ca, Some(&set.client)).await.map_err(|e| setup("raw connect", e.to_string()))?;
+    let tn = TopicName::try_from(topic.as_str()).map_err(|e| setup("topic", e.to_string()))?;
+    let (mut rs, first) = raw.register(Frame::RegisterReplier(ReplierPayload { topic: tn })).await.map_err(|e| setup("register replier", e.to_string()))?;
+    if first != Some(Frame::Ok) {
+        return Err(setup("register replier", format!("answered {first:?}")));
+    }
+    let replier = tokio::spawn(async move {
+        while let Some(Ok(f)) = rs.next().await {
+            if let Frame::Message(p) = f {
+                let body = String::from_utf8_lossy(&p.message).to_string();
+                let _ = rs.send(Frame::Message(MessagePayload { headers: p.headers, message: Bytes::from(format!("re:{body}").into_bytes()) })).await;
+            }
+        }
+    });
+    let client = net::default_client(addr, &set).await.map_err(|e| setup("client connect", e.to_string()))?;
+    let req = client
+        .requestor(&topic)
+        .with_request_encoder(StringCodec)
+        .with_reply_decoder(StringCodec)
+        .with_request_timeout(Duration::from_millis(5000))
+        .map_err(|e| setup("timeout config", e.to_string()))?
+        .open()
+        .await
+        .map_err(|e| fail("open-error", &class, format!("requestor open failed: {e}")))?;
+    let n = 8usize;
+    let barrier = Arc::new(std::sync::Barrier::new(n));
+    let rt = tokio::runtime::Handle::current();
+    let mut threads = Vec::new();
+    for t in 0..n {
+        let mut r = req.clone();
+        let barrier = barrier.clone();
+        let rt = rt.clone();
+        threads.push(std::thread::spawn(move || -> Result<(), String> {
+            for round in 0..rounds {
+                let body = format!("round{round}-thread{t}");
+                barrier.wait();
+                match rt.block_on(r.request(body.clone())) {
+                    Ok(v) if v == format!("re:{body}") => {}
+                    Ok(v) => return Err(format!("{body} returned Ok({v:?})")),
+                    Err(SeliumError::RequestTimeout) => {}
+                    Err(e) => return Err(format!("{body} failed with {e} although the replier answers everything")),
+                }
+            }
+            Ok(())
+        }));
+    }
+    let joined = tokio::task::spawn_blocking(move || threads.into_iter().map(|h| h.join().unwrap_or_else(|_| Err("thread panicked".into()))).collect::<Vec<_>>()).await.map_err(|e| setup("join", e.to_string()))?;
+    replier.abort();
+    for r in joined {
+        if let Err(e) = r {
+            return Err(fail("wrong-reply", &class, format!("eight clones of one requestor, each on a thread of its own, issuing a request at the same instant for {rounds} rounds: {e}")));
+        }
+    }
+    Ok("own-replies (sampled schedules)".into())
 }
 
 /// Request "slow" is left unanswered and times out; `distance`-1 filler requests are answered at
@@ -781,6 +955,12 @@ pub async fn run(tier: &str, replaying: bool) -> ! {
         async move {
             let topic = format!("/c04ns/t{}x{}", c["cell"], salt.fetch_add(1, Ordering::SeqCst));
             let nontrivial = c["calls"].as_u64().unwrap() >= 2;
+            if c["family"].as_str() == Some("used-handle-cloned") {
+                return (true, used_clone_cell(addr, set.clone(), topic.clone(), c.clone()).await);
+            }
+            if c["family"].as_str() == Some("clone-stampede") {
+                return (true, stampede_cell(addr, set.clone(), topic.clone(), c.clone()).await);
+            }
             if c["family"].as_str() == Some("late-reply-at-distance") {
                 return (true, distance_cell(addr, set.clone(), topic.clone(), c.clone()).await);
             }
